@@ -3,6 +3,7 @@ module verifharness
 go 1.21
 
 require (
+	github.com/google/uuid v1.3.0
 	github.com/massnetorg/mass-core v0.0.0-20210816132538-be1c10e6c62a
 	massnet.org/mass v0.0.0
 )
@@ -15,7 +16,6 @@ require (
 	github.com/golang/groupcache v0.0.0-20191227052852-215e87163ea7 // indirect
 	github.com/golang/protobuf v1.4.2 // indirect
 	github.com/golang/snappy v0.0.1 // indirect
-	github.com/google/uuid v1.3.0 // indirect
 	github.com/grpc-ecosystem/grpc-gateway v1.14.5 // indirect
 	github.com/lestrrat/go-file-rotatelogs v0.0.0-20180223000712-d3151e2a480f // indirect
 	github.com/lestrrat/go-strftime v0.0.0-20180220042222-ba3bf9c1d042 // indirect
